@@ -384,3 +384,42 @@ func VerifC19Concrete() {
 		verifapi.Assert(p == wantPort, "c19.advertised-port-is-supplied-or-30303")
 	}
 }
+
+// VerifC19Odd: concrete override strings that are not of the plain enode://id@host[:port] form - opaque URIs
+// (no // after the scheme), other schemes, a missing scheme, queries, paths and fragments, a foreign id. Whatever
+// the host supplies, the pool either refuses it or advertises exactly enode://<authenticated id>@<host>:<port>
+// with the supplied or the connection's host, and nothing else of the supplied text.
+func VerifC19Odd() {
+	nodeID, other := verifapi.NodeID(0), verifapi.NodeID(1)
+	src := []string{"203.0.113.7", ""}[verifapi.Choose("source", 2)]
+	sup := "198.51.100.9"
+	overrides := []string{
+		"enode:" + other + "@" + sup + ":30303",
+		"enode:" + nodeID + "@" + sup + ":30303",
+		"enode:x://" + nodeID + "@" + sup + ":30303",
+		"enode:x://" + other + "@" + sup + ":30303",
+		"http:" + sup,
+		"mailto:" + nodeID + "@example.com",
+		"enode://" + nodeID + "@" + sup + ":30303?discport=0",
+		"enode://" + nodeID + "@" + sup + ":30303/path#frag",
+		"//" + nodeID + "@" + sup,
+		nodeID + "@" + sup + ":30303",
+		"enode://" + other + "@" + sup + ":30303",
+		"http://" + nodeID + "@" + sup + ":30303",
+		"enode://" + nodeID + ":secret@" + sup + ":30303",
+	}
+	k := verifapi.Choose("override", len(overrides))
+	got, err := normalizeNodeURI(overrides[k], nodeID, src, "30303")
+	verifapi.Reach("c19.odd")
+	if err != nil {
+		return
+	}
+	verifapi.Observe("advertised", got)
+	okDefault := src != "" && got == "enode://"+nodeID+"@"+src+":30303"
+	okSupplied := got == "enode://"+nodeID+"@"+sup+":30303"
+	verifapi.Assert(okDefault || okSupplied, "c19.odd.advertised-is-exactly-id-at-supplied-or-connection-address")
+	if k == 10 || k == 3 || k == 0 {
+		// the override names another node: never advertised at the address it supplied
+		verifapi.Assert(!okSupplied, "c19.odd.foreign-id-address-not-adopted")
+	}
+}
